@@ -32,6 +32,7 @@ type C14Case struct {
 	Entry   int          `json:"entry"`          // see c14EntryNames
 
 	warmDiff string
+	locErr   string // error text of the entry point, if it returned one
 }
 
 func init() { register("C14", func() Case { return &C14Case{} }) }
@@ -40,7 +41,10 @@ var c14EntryNames = []string{"sonic.Get", "sonic.GetFromString", "sonic.GetCopyF
 
 func drawC14(t *rapid.T) Case {
 	c := &C14Case{}
-	c.Doc = gen.ValidDoc(t, gen.DocOpt{Str: gen.StrOpt{}, Wide: true, MaxDepth: 4, Nested: true}) // keys spelled with lone surrogate escapes are not addressable by a Go string path: outside the domain
+	// Lone surrogate escapes may occur in values and keys (encoding/json reads them as U+FFFD); a key spelled
+	// with one is not addressable by a Go string path, so paths never step through such a key (see drawC14Path),
+	// but they do address its neighbours.
+	c.Doc = gen.ValidDoc(t, gen.DocOpt{Str: gen.StrOpt{LoneSurr: rapid.IntRange(0, 3).Draw(t, "lonesurr") == 0}, Wide: true, MaxDepth: 4, Nested: true})
 	if !json.Valid(c.Doc) {
 		c.Doc = []byte(`{"a":[1,{"b":null}]}`)
 	}
@@ -76,6 +80,14 @@ func drawC14Path(t *rapid.T, root *ref.Node) []PathElem {
 				break
 			}
 			i := rapid.IntRange(0, len(cur.Keys)-1).Draw(t, "member")
+			// skip keys that decode with a replacement character (lone surrogate spellings): take the next plain one
+			for n := 0; n < len(cur.Keys) && strings.ContainsRune(cur.Keys[i].Str, 0xFFFD); n++ {
+				i = (i + 1) % len(cur.Keys)
+			}
+			if strings.ContainsRune(cur.Keys[i].Str, 0xFFFD) {
+				d = depth
+				break
+			}
 			k := cur.Keys[i].Str
 			path = append(path, PathElem{Key: &k})
 			cur = cur.Elems[firstIndexOfKey(cur, k)]
@@ -230,6 +242,9 @@ func (c *C14Case) locate() (n ast.Node, ok bool) {
 		return *p, true
 	}
 	if err != nil || !n.Exists() || n.Check() != nil {
+		if err != nil {
+			c.locErr = err.Error()
+		}
 		return n, false
 	}
 	return n, true
@@ -341,7 +356,7 @@ func (c *C14Case) Run() (res stat.Result) {
 		return
 	}
 	want := c.follow(root)
-	c.warmDiff = ""
+	c.warmDiff, c.locErr = "", ""
 	got, ok := c.locate()
 	what := fmt.Sprintf("%s(%s, path %s, opts %d)", c14EntryNames[c.Entry], clipB(c.Doc), c.pathString(), c.Opts)
 	res.Sub++
@@ -613,7 +628,31 @@ func (c *C14Case) classes(res *stat.Result, root, want *ref.Node) {
 
 // classify maps a failure to a listed known finding.
 func (c *C14Case) classify(root, want *ref.Node, msg string) string {
+	// C14-native-search-lone-surrogate-key: the native path search (sonic.Get*, Searcher.GetByPath) unescapes the
+	// keys it passes while comparing them and gives up with "invalid unicode escape" on a lone surrogate escape
+	if c.Entry <= 4 && want != nil && strings.Contains(msg, "reported as missing/error") && strings.Contains(c.locErr, "invalid unicode escape") &&
+		hasLoneSurrogateKey(root) && knownListed("C14-native-search-lone-surrogate-key") {
+		return "C14-native-search-lone-surrogate-key"
+	}
 	return ""
+}
+
+// hasLoneSurrogateKey: some object key of the document decodes with a replacement character that its spelling does not contain.
+func hasLoneSurrogateKey(n *ref.Node) bool {
+	if n == nil {
+		return false
+	}
+	for _, k := range n.Keys {
+		if strings.ContainsRune(k.Str, 0xFFFD) {
+			return true
+		}
+	}
+	for _, e := range n.Elems {
+		if hasLoneSurrogateKey(e) {
+			return true
+		}
+	}
+	return false
 }
 
 var _ = gen.Space
